@@ -67,7 +67,22 @@ type ContractFile struct {
 	Path   string
 	Funcs  []*FuncSpec
 	Macros map[string]string
+	// Frame declarations: "frame <kind> <func> <ordinal> <justification>: text"
+	Frames []FrameDecl
 }
+
+// FrameDecl justifies one structurally checked site (a map iteration, a source
+// of nondeterminism, a file-system write).
+type FrameDecl struct {
+	Kind    string // mapiter | nondet | fswrite
+	Func    string
+	Ordinal int
+	Why     string // justification keyword
+	Text    string
+	Line    int
+}
+
+var frameRe = regexp.MustCompile(`^(\w+)\s+(.+?)\s+#(\d+)\s+([\w-]+)\s*:\s*(.*)$`)
 
 var clauseHead = regexp.MustCompile(`^(\[[A-Za-z0-9, ]*\])?\s*([A-Za-z0-9_.\-]+)\s*:\s*(.*)$`)
 
@@ -149,6 +164,14 @@ func ParseContractFile(path string) (*ContractFile, error) {
 				return nil, errf("bad macro")
 			}
 			cf.Macros[strings.TrimSpace(rest[:eq])] = strings.TrimSpace(rest[eq+1:])
+		case "frame":
+			// frame <kind> <func...> #<n> <why>: text
+			m := frameRe.FindStringSubmatch(rest)
+			if m == nil {
+				return nil, errf("frame wants: frame <kind> <func> #<n> <justification>: text")
+			}
+			n, _ := strconv.Atoi(m[3])
+			cf.Frames = append(cf.Frames, FrameDecl{Kind: m[1], Func: strings.TrimSpace(m[2]), Ordinal: n, Why: m[4], Text: strings.TrimSpace(m[5]), Line: l.no})
 		case "func":
 			cur = &FuncSpec{Name: rest, Loops: map[int]*LoopSpec{}, Sites: map[string]*SiteSpec{}, Options: map[string]string{}, File: path, Line: l.no}
 			cf.Funcs = append(cf.Funcs, cur)
